@@ -1071,8 +1071,7 @@ class Stack(list):
         return True
 
     def op_numequalverify(self):
-        self.op_numequal()
-        return self.op_verify()
+        return self.op_numequal() and self.op_verify()
 
     def op_numnotequal(self):
         if not self.is_arithmetic(2):
